@@ -22,6 +22,8 @@ def main():
         if a.replay:
             rec = json.load(open(a.replay))
             return mod.replay(rec['record'])
+        from mc import core
+        core.REPLAYER = getattr(mod, 'replay', None)
         return mod.check(a.tier, seed)
     except boot.HarnessError as e:
         print(f'ERROR: {e}')
